@@ -227,6 +227,7 @@ def transmit_and_check(ctx, ch, get_resp, kind, mimo, rng, tag, pos, pathloss=No
         okc, y = ctx.call("output-is-convolution", ch.corrupt_data, x, detail=d(N=N))
         if not okc:
             return
+        ctx.hold("output-is-convolution", "corrupt_data", y, d(N=N))
         ctx.ev("args-not-mutated", np.array_equal(x, xb), cls="corrupt_data", detail=d())
         okc, resp = ctx.call("output-is-convolution", get_resp, detail=d(N=N))
         if not okc:
